@@ -561,7 +561,6 @@ func buildShared(rc *Recipe, earlier []geojson.Object) (obj geojson.Object) {
 	}
 }
 
-
 // styleJSON re-renders compact JSON text in another textual style without
 // changing its value: whitespace between tokens, the top-level "type" member
 // moved to the end, numbers in exponent notation.
